@@ -6,10 +6,12 @@ from .execu import Executor, State, Frame
 from .sym import Unsupported
 
 
-def run_lemmas(table, specs, only=None, props=None):
+def run_lemmas(table, specs, only=None, props=None, only_exact=None, both=False):
     out = []
     for name, text, lprops, note in specs.lemmas:
         if only and only not in name:
+            continue
+        if only_exact and only_exact != name:
             continue
         if props and not set(props) & set(lprops):
             continue
@@ -22,7 +24,7 @@ def run_lemmas(table, specs, only=None, props=None):
             st.pure = True
             goal = specs.eval_bool(ex, text, st, None)
             o = verify.execu.Oblig(name, st.pc, goal, [], 'lemma', {'clause': text})
-            status, dt, backend, model, reason = verify.discharge(ex, o)
+            status, dt, backend, model, reason = verify.discharge(ex, o, both=both)
             r.update(status=status, backend=backend, reason=reason)
             if status == 'refuted':
                 r['model'] = verify.model_summary(ex, o, model)
